@@ -426,7 +426,10 @@ Definition ins_row (g : cfg) (fx : fixes) (c : cstate) (m : imode) (t : txs) (r 
   let k := fst (fst kmt) in let mustExist := snd (fst kmt) in let t := snd kmt in
   if k_notnull g && is_null v then Err ENotNull else
   if negb (check_ok g v) then Err ECheck else
-  let (found, t) := tx_get c t k in
+  let (found0, t) := tx_get c t k in
+  (* a key whose last write by this very transaction was a delete does not exist (the deleted flag
+     of the ongoing entry is looked at on the returned reference) *)
+  let found := found0 && negb (match alookup k (t_rows t) with Some (true, _) => true | _ => false end) in
   if negb found && mustExist then Err EAutoInc else
   match m, found with
   | MInsert, true => Err EExists
